@@ -124,7 +124,8 @@ def check_roundtrip(ctx):
                         ["async"] if fmt != "tfrec" else []) + (
                         ["rust"] if fmt == "fb" and comp in ("", "GZIP", "ZLIB",
                                                              "LZ4") else [])
-                    if tier != "quick":
+                    if tier != "quick" or (dtype == dts[0] and comp in (
+                            "", "GZIP")):
                         ifaces.append("tf")
                     for iface in ifaces:
                         n_eval += 1
